@@ -144,3 +144,42 @@ func VerifFlatIterState(it *FlatIterator) (track []int, next, last int, done, re
 
 // VerifDivmod exposes divmod (assembly by default, pure Go under -tags noasm).
 func VerifDivmod(a, b int) (int, int) { return divmod(a, b) }
+
+func fnvInts(h uint64, s []int) uint64 {
+	h = (h ^ uint64(len(s))) * 1099511628211
+	for _, v := range s {
+		h = (h ^ uint64(v)) * 1099511628211
+	}
+	return h
+}
+
+// VerifQuickHash is an allocation-free hash of everything observable about t: metadata (shape, strides, order, pending
+// transpose, view flag, mask) and the bytes of its storage window. Used as the shared-state monitor of C18.
+func VerifQuickHash(t *Dense) uint64 {
+	h := uint64(14695981039346656037)
+	h = fnvInts(h, t.shape)
+	h = fnvInts(h, t.strides)
+	h = fnvInts(h, t.old.shape)
+	h = fnvInts(h, t.old.strides)
+	h = fnvInts(h, t.transposeWith)
+	h = (h ^ uint64(t.o) ^ uint64(t.old.o)<<8 ^ uint64(t.flag)<<16) * 1099511628211
+	if t.viewOf != 0 {
+		h = (h ^ 1) * 1099511628211
+	}
+	if t.maskIsSoft {
+		h = (h ^ 2) * 1099511628211
+	}
+	for _, m := range t.mask {
+		if m {
+			h = (h ^ 3) * 1099511628211
+		} else {
+			h = (h ^ 5) * 1099511628211
+		}
+	}
+	raw := t.array.Header.Raw
+	h = (h ^ uint64(len(raw))) * 1099511628211
+	for _, b := range raw {
+		h = (h ^ uint64(b)) * 1099511628211
+	}
+	return h
+}
